@@ -2,7 +2,6 @@ package c05
 
 import (
 	"fmt"
-	"math"
 	"reflect"
 	"strconv"
 	"strings"
@@ -25,6 +24,9 @@ import (
 //	            R%4 = 3            a named type of the same kind
 //	            (R/16)%4 = 2, 3    one / two pointer levels
 //	nil:        R%4 = 0 untyped nil, 1 nil *int, 2 nil map, 3 nil slice (2 and 3 only if nilConts)
+//
+// and by the sized / named kinds of primitives, further typed nils and the
+// pointer/interface chains described in prims_test.go (bits 6-9 and 19-39 of R).
 //
 // Struct representations (R%8 = 2, 7; forced for an object that holds a key
 // twice) carry a layout in R>>6, see layoutOf: the keys of the object, in
@@ -58,7 +60,8 @@ type (
 )
 
 var (
-	tIface = reflect.TypeOf((*interface{})(nil)).Elem()
+	tIface    = reflect.TypeOf((*interface{})(nil)).Elem()
+	tPtrIface = reflect.TypeOf((*interface{})(nil))
 )
 
 // structable reports whether every key of the object can be written in a
@@ -130,7 +133,7 @@ var segNames = [...]string{"fields", "inline map", "inline struct", "inline *str
 // not hold a key twice: such a run becomes an inline struct.
 func layoutOf(t *gen.Tree) []seg {
 	n := len(t.Keys)
-	l := t.R >> 6
+	l := (t.R >> 6) & 0x1fff
 	if l <= 0 {
 		return []seg{{0, n, segFields}}
 	}
@@ -334,75 +337,20 @@ func ptrDepth(r int) int {
 
 func (b *builder) use(label string) { b.used[label]++ }
 
-func (b *builder) prim(t *gen.Tree) interface{} {
+func (b *builder) prim(t *gen.Tree) interface{} { return b.primAs(t, t.R, []*gen.Tree{t}) }
+
+// primAs builds a primitive or nil node under the representation bits r (its
+// own, or those of its first sibling in a typed container, see children).
+func (b *builder) primAs(t *gen.Tree, r int, group []*gen.Tree) interface{} {
 	if t.K == "nil" {
-		switch t.R % 4 {
-		case 1:
-			b.use("nil *int")
-			return (*int)(nil)
-		case 2:
-			if b.nilConts {
-				b.use("nil map")
-				return map[string]interface{}(nil)
-			}
-		case 3:
-			if b.nilConts {
-				b.use("nil slice")
-				return []interface{}(nil)
-			}
-		}
-		return nil
+		return b.chain(b.nilValue(r), r, "a nil")
 	}
-	v := t.Prim()
-	switch t.R % 4 {
-	case 2:
-		sel := (t.R / 4) % 4
-		switch t.K {
-		case "uint":
-			switch {
-			case t.U <= 127:
-				b.use("narrow int")
-				return []interface{}{int8(t.U), uint16(t.U), int(t.U), int32(t.U)}[sel]
-			case t.U <= math.MaxInt64:
-				b.use("narrow int")
-				return int64(t.U)
-			}
-		case "int":
-			switch {
-			case t.I >= -128:
-				b.use("narrow int")
-				return []interface{}{int8(t.I), int16(t.I), int(t.I), int32(t.I)}[sel]
-			case t.I >= math.MinInt32:
-				b.use("narrow int")
-				return int32(t.I)
-			}
-		case "float":
-			f := t.FloatVal()
-			if f32 := float32(f); float64(f32) == f {
-				b.use("float32")
-				v = f32
-			}
-		}
-	case 3:
-		b.use("named primitive")
-		switch t.K {
-		case "uint":
-			v = nUint(t.U)
-		case "int":
-			v = nInt(t.I)
-		case "float":
-			v = nFloat(t.FloatVal())
-		case "str":
-			v = nStr(t.S)
-		case "bool":
-			v = nBool(t.B)
-		}
-	}
-	if d := ptrDepth(t.R); d > 0 {
+	v := b.primValue(t, r, group)
+	if d := ptrDepth(r); d > 0 {
 		b.use("pointer to primitive")
 		v = ptrTo(v, d)
 	}
-	return v
+	return b.chain(v, r, "a primitive")
 }
 
 // commonType returns the Go type shared by all values, if there is one.
@@ -419,9 +367,52 @@ func commonType(vals []interface{}) (reflect.Type, bool) {
 	return ty, true
 }
 
+// typedCont reports whether the container is written as a typed map, slice
+// or array if its children share a Go type.
+func typedCont(t *gen.Tree) bool {
+	switch t.K {
+	case "obj":
+		return t.R%8 == 6 && !asStruct(t)
+	case "list":
+		return t.R%8 == 1 || t.R%8 == 6 || t.R%8 == 7
+	}
+	return false
+}
+
+// elemType is the element type of a typed container: the type the children
+// share, or *interface{} with every child boxed if they share none and the
+// container asks for it (boxBit).
+func (b *builder) elemType(t *gen.Tree, vals []interface{}) (reflect.Type, []interface{}, bool) {
+	if ty, ok := commonType(vals); ok {
+		return ty, vals, true
+	}
+	if t.R&boxBit != 0 && len(vals) > 0 {
+		vals = boxAll(vals)
+		return reflect.TypeOf(vals[0]), vals, true
+	}
+	return nil, vals, false
+}
+
+func isContType(ty reflect.Type) bool {
+	switch ty.Kind() {
+	case reflect.Map, reflect.Slice, reflect.Struct, reflect.Array:
+		return true
+	case reflect.Ptr:
+		return ty != tPtrIface
+	}
+	return false
+}
+
 func (b *builder) children(t *gen.Tree) ([]interface{}, error) {
 	vals := make([]interface{}, len(t.Vals))
+	// the primitives of a typed map, slice or array are built in one Go type:
+	// the one the first of them selects among the kinds that hold them all
+	uniform := typedCont(t) && len(t.Vals) > 1 && sameClassPrims(t.Vals)
 	for i, c := range t.Vals {
+		if uniform {
+			vals[i] = b.primAs(c, t.Vals[0].R, t.Vals)
+			continue
+		}
 		v, err := b.build(c)
 		if err != nil {
 			return nil, err
@@ -487,14 +478,17 @@ func (b *builder) build(t *gen.Tree) (interface{}, error) {
 			b.use("named map")
 			out = nMap(generic())
 		case 6:
-			if ty, ok := commonType(vals); ok {
+			if ty, vals, ok := b.elemType(t, vals); ok {
 				m := reflect.MakeMapWithSize(reflect.MapOf(reflect.TypeOf(""), ty), len(vals))
 				for i, k := range t.Keys {
 					m.SetMapIndex(reflect.ValueOf(k), reflect.ValueOf(vals[i]))
 				}
-				if ty.Kind() == reflect.Map || ty.Kind() == reflect.Slice || ty.Kind() == reflect.Ptr || ty.Kind() == reflect.Struct || ty.Kind() == reflect.Array {
+				switch {
+				case ty == tPtrIface:
+					b.use("map[string]*interface{}")
+				case isContType(ty):
 					b.use("map[string]<container type>")
-				} else {
+				default:
 					b.use("map[string]T")
 				}
 				out = m.Interface()
@@ -520,7 +514,7 @@ func (b *builder) build(t *gen.Tree) (interface{}, error) {
 		}
 		switch t.R % 8 {
 		case 1, 6, 7:
-			ty, ok := commonType(vals)
+			ty, vals, ok := b.elemType(t, vals)
 			if !ok {
 				break
 			}
@@ -528,22 +522,20 @@ func (b *builder) build(t *gen.Tree) (interface{}, error) {
 			for i, v := range vals {
 				s.Index(i).Set(reflect.ValueOf(v))
 			}
-			cont := ty.Kind() == reflect.Map || ty.Kind() == reflect.Slice || ty.Kind() == reflect.Ptr || ty.Kind() == reflect.Struct || ty.Kind() == reflect.Array
+			elem := "T"
+			switch {
+			case ty == tPtrIface:
+				elem = "*interface{}"
+			case isContType(ty):
+				elem = "<container type>"
+			}
 			if t.R%8 == 6 {
 				a := reflect.New(reflect.ArrayOf(len(vals), ty)).Elem()
 				reflect.Copy(a, s)
-				if cont {
-					b.use("[N]<container type>")
-				} else {
-					b.use("[N]T")
-				}
+				b.use("[N]" + elem)
 				out = a.Interface()
 			} else {
-				if cont {
-					b.use("[]<container type>")
-				} else {
-					b.use("[]T")
-				}
+				b.use("[]" + elem)
 				out = s.Interface()
 			}
 		case 2:
@@ -573,7 +565,7 @@ func (b *builder) build(t *gen.Tree) (interface{}, error) {
 		b.use(fmt.Sprintf("%d extra pointer level(s)", d))
 		out = ptrTo(out, d)
 	}
-	return out, nil
+	return b.chain(out, t.R, "a container"), nil
 }
 
 // structOf writes the object as a struct according to its layout.
@@ -659,6 +651,11 @@ func (b *builder) structOf(t *gen.Tree, vals []interface{}) interface{} {
 			member = mapOf(s.from, s.to)
 		}
 		b.use(segNames[s.kind])
+		if w := (t.R >> (inlineShift + 4*run)) & 15; w != 0 && run < 3 {
+			member = wrapLinks(member, w)
+			b.use("chain: around an inline member")
+			b.useIf(w&3 >= 2 || w>>2 >= 2, "chain: pointer to interface around an inline member")
+		}
 		ft := reflect.TypeOf(member)
 		if s.kind == segIfaceField {
 			ft = tIface
